@@ -109,8 +109,9 @@ def one_case(ctx, out, cfg, spec, tree, cls, km_name, vm_name, compression, use_
     needs_mapper = not cfg.endswith("str")
     key_map = S.KEY_MAPS[km_name]
     value_map = S.VALUE_MAPS[vm_name]
-    if isinstance(value_map, dict):
-        value_map = dict(value_map)
+    # the custom maps are the application's own dict objects, passed to every save as they are (S.KEY_MAPS / S.VALUE_MAPS):
+    # save() must not keep anything in them
+    maps_before = (json.dumps(S.KEY_MAPS["custom"], sort_keys=True), json.dumps(S.VALUE_MAPS["custom"], sort_keys=True))
     # ONE caller-owned metadata dict is re-used for all saves (as an application would): save() must neither keep state in
     # it (maps of an earlier call) nor hand a header with foreign entries to the next call
     SHARED_META.update({"foo": "bar", "n": next(counter)})
@@ -148,11 +149,17 @@ def one_case(ctx, out, cfg, spec, tree, cls, km_name, vm_name, compression, use_
         doc = None
     if S.tree_shape(tree, pool) != before:
         out.fail(case, "save() changed the tree")
+    if (json.dumps(S.KEY_MAPS["custom"], sort_keys=True), json.dumps(S.VALUE_MAPS["custom"], sort_keys=True)) != maps_before:
+        # not a failure by itself: what counts is what a LATER save / load with the same application-owned dict does
+        out.dist["save_wrote_into_the_callers_map"] += 1
     if SHARED_META != meta:
         out.fail(case, f"save() changed the caller's metadata dict: {SHARED_META} (was {meta})")
         SHARED_META.clear()
     if r_save != "ok":
-        out.fail(case, f"save({km_name}, {vm_name}, compression={compression!r}, path={use_path}) raised {r_save}")
+        dirty = S.custom_maps_dirty()
+        out.fail(case, f"save({km_name}, {vm_name}, compression={compression!r}, path={use_path}) raised {r_save}"
+                 + (f" (the caller's custom maps, re-used for every save, had been written into by an earlier save(): {dirty})" if dirty else ""))
+        S.reset_custom_maps()
         return
     # model document
     req = {"op": "ser.save", "t": tj, "typed": typed, "key_map": ekm, "value_map": evm, "meta": meta,
